@@ -430,7 +430,8 @@ def sharded_triple(ctx):
       ctx.ob('C07.R3', fi.short, 'sizes = first dims of the announced shapes iff not skipped', oks,
              f'`sizes` must be [s[0] for s in shapes] for preconditioned parameters and [] for skipped ones; got `{show(sizes, maxdepth=5)[:160]}`',
              ctx.loc(fi), sample='sizes = [] | [s[0] for s in shapes]', trivial=True)
-      okg = idx is not None and _counter_guarded(idx, ev.last_scope)
+      sem = _counter_semantic(m, fi, d.truth, d.cmps, extra)
+      okg = sem if sem is not None else (idx is not None and _counter_guarded(idx, ev.last_scope))
       ctx.ob('C07.R3', fi.short, 'statistics counted only for preconditioned parameters', okg,
              f'index_start must count the statistics of preceding parameters that are NOT skipped (guard `not _skip_preconditioning(param)`); got `{show(idx, maxdepth=6)[:200]}`',
              ctx.loc(fi), sample='index_start advances by len(shapes) under `not skip`')
@@ -478,6 +479,52 @@ def _sizes_form(t):
         pos.args[0].args[0].op == 'sub' and is_const(pos.args[0].args[0].args[1], 0)
     return ok_neg and ok_pos
   return False
+
+
+def _counter_semantic(m, fi, truth, cmps, extra0):
+  """Decide the statistics counter by evaluating the function twice, once with `_skip_preconditioning(param)` decided
+  true and once false: a skipped parameter must leave the running counter unchanged and declare no sizes; a
+  preconditioned one must advance it by the number of announced shapes.  Returns None when the counter is not a
+  running loop value (the structural rule applies then)."""
+  cmpr = Comparer()
+  out = []
+  for skip in (True, False):
+    def extra(c, skip=skip):
+      if c.op == 'call' and fn_name(c) == '_skip_preconditioning':
+        return skip
+      return extra0(c)
+    g = enum_member(evaluator(m), m, MOD, 'GraftingType', 'SGD')
+    ev = evaluator(m, factory_cfg={'graft_type': g}, decide=Decider(truth=dict(truth), cmps=dict(cmps), extra=extra),
+                   opaque={'_skip_preconditioning', 'preconditioner_from_params', 'shapes_for_preconditioners', 'exponent_for_preconditioner',
+                           'precond_dim', '_max_statistics_size_from_params', '_remove_leading_sharding_annotation'})
+    ev.run(fi)
+    cons = [c for c in ev.calls if c.via == 'construct' and c.callee.endswith('.LocalShardedParameterStats') and c.caller == fi.fq]
+    if len(cons) != 1:
+      return None
+    idx = cons[0].args.get('index_start')
+    if idx is None or idx.op != 'phi':
+      return None
+    name = idx.args[1]
+    final = ev.last_scope.vars.get(name)
+    loops = [x for x in walk(final) if x.op == 'loop' and x.args[1] == name and x.args[0] == idx.args[0]] if final is not None else []
+    if len(loops) != 1:
+      return None
+    body = loops[0].args[3]
+    if skip:
+      out.append(cmpr.same(body, idx))
+    else:
+      ok = False
+      if body.op == 'bin' and body.args[0] == '+' and any(a is idx for a in body.args[1:]):
+        inc = [a for a in body.args[1:] if a is not idx]
+        inc = inc[0] if inc else idx
+        if inc.op == 'call' and inc.args[0].op == 'builtin' and inc.args[0].args[0] == 'len' and len(inc.args[1]) == 1:
+          lst = inc.args[1][0]
+          if lst.op == 'list' and len(lst.args) == 1 and lst.args[0].op == 'star' and lst.args[0].args[1].op == 'compdom' and \
+              len(lst.args[0].args[1].args) == 1:
+            lst = lst.args[0].args[1].args[0]        # len([f(s) for s in X]) is len(X)
+          ok = lst.op == 'call' and 'shapes_for_preconditioners' in show(lst.args[0], maxdepth=4)
+      out.append(ok)
+  return all(out)
 
 
 def _counter_guarded(idx, scope):
@@ -663,9 +710,21 @@ def _dtypes(ctx, fis):
                  opaque={'_skip_preconditioning', 'preconditioner_from_params', 'shapes_for_preconditioners', 'precond_dim', '_max_statistics_size_from_params',
                          'init_avg_grad_shape', 'init_training_metrics_shapes'})
   ev.run(f_shape)
-  qv = [c for c in ev.calls if c.via == 'construct' and c.callee.endswith('.QuantizedValue') and c.caller == f_shape.fq]
-  ctx.need('C07.R3', len(qv), 3, 'QuantizedValue declarations in the shape/dtype function')
-  for c in qv[1:]:
+  # the momentum declarations are the QuantizedValue records stored in the two momentum fields of the per-parameter
+  # state (wherever they are built: inline or in a local helper)
+  lsp = [c for c in ev.calls if c.via == 'construct' and c.callee.endswith('.LocalShardedParameterStats') and
+         (c.caller == f_shape.fq or c.caller.startswith(f_shape.fq + '.'))]
+  ctx.need('C07.R3', len(lsp), 1, 'LocalShardedParameterStats declarations in the shape/dtype function')
+  qrec = {id(c.result): c for c in ev.calls if c.via == 'construct' and c.callee.endswith('.QuantizedValue')}
+  qv = []
+  for l_ in lsp:
+    for fld in ('diagonal_momentum', 'momentum'):
+      v_ = l_.args.get(fld)
+      if v_ is None or id(v_) not in qrec:
+        raise AnalysisError(f'{f_shape.short}: field `{fld}` of LocalShardedParameterStats is not declared by a QuantizedValue constructor')
+      qv.append(qrec[id(v_)])
+  ctx.need('C07.R3', len(qv), 2, 'quantized momentum declarations in the shape/dtype function')
+  for c in qv:
     pay = _dtype_of(c.args['quantized']) if c.args['quantized'].op == 'list' else None
     sc = _dtype_of(c.args['bucket_size']) if c.args['bucket_size'].op == 'list' and c.args['bucket_size'].args else None
     qd = _dtype_name(c.args['quantized_dtype'])
